@@ -74,6 +74,7 @@ class World:
     def __init__(self, knobs):
         self.knobs = knobs
         n = knobs.get('pool', 4)
+        atoms.reset_reuse(knobs.get('reuse', False))
         self.vals = [AnsiString() for _ in range(n)]
         self.obs = [observe(v) for v in self.vals]
         self.stats = {}
